@@ -81,4 +81,10 @@ PROPERTIES = {
         explanation="@mixin argument parsing and base/import bookkeeping under contract; fragment class ordering by exhaustive bounded stand-in",
         assumptions=["that a class listed as base validates the same payload is pydantic's inheritance (assumed)"],
     ),
+    "C16": dict(
+        modules=["contracts.c16_schema"],
+        bounded=[_bounded.lazy("contracts.e2e_schema", "bounded_round_trip")],
+        explanation="schema generator functions against the constructor-call AST that rebuilds the object; end-to-end round trip as bounded stand-in",
+        assumptions=["graphql-core constructors: keyword -> attribute; ast.Constant printed by repr and read back equal (str/int/float/bool/None/list/dict)"],
+    ),
 }
